@@ -806,9 +806,10 @@ impl PatProp for ReplaceModel {
             _ => return Verdict::Skip("find_iter error/panic (judged by C05/C08)"),
         };
         let cspans: Vec<(usize, usize)> = caps.iter().map(|c| c[0].unwrap()).collect();
-        if fi != cspans {
-            return Verdict::Skip("find_iter != captures_iter (judged by C09)");
-        }
+        // the property is stated in terms of the find_iter matches; when captures_iter disagrees
+        // (C09) the group-free replacers are still checked against the find_iter model
+        let agree = fi == cspans;
+        let caps: Vec<Vec<refm::Span>> = if agree { caps } else { fi.iter().map(|s| vec![Some(*s)]).collect() };
         if fi.iter().any(|(s, e)| !span_ok(t, *s, *e)) || fi.windows(2).any(|w| w[1].0 < w[0].1) {
             return Verdict::Skip("find_iter invalid (judged by C08)");
         }
@@ -853,7 +854,10 @@ impl PatProp for ReplaceModel {
                 check("const-by_ref", re.try_replacen(t, limit, fancy_regex::Replacer::by_ref(&mut by_ref_rep)), want)?;
                 // NoExpand keeps `$` literally
                 check("noexpand-dollar", re.try_replacen(t, limit, NoExpand("$0")), model(limit, &|_| "$0".to_string()))?;
-                // templates
+                // templates (need the groups of every match)
+                if !agree {
+                    continue;
+                }
                 for tpl in ["<$0>", "${1}x$$", "$1x", "[$2|$1]", "$$", "x$$y$", "${", "$é"] {
                     let want = model(limit, &|c| model::expand(tpl, true, &CapGroups { c, t }));
                     check(tpl, re.try_replacen(t, limit, tpl), want)?;
